@@ -12,6 +12,7 @@ import (
 	"go/constant"
 	"go/token"
 	"go/types"
+	"sort"
 	"strings"
 
 	"golang.org/x/tools/go/packages"
@@ -251,6 +252,13 @@ type vRead struct {
 }
 type vBytesSeq struct{ Ops []*Op }
 type vLocalBuf struct{ ops *[]*Op }
+
+// vScratch: b := make([]byte, N) filled by order.PutUintK(b[o:], field) calls; written out as a whole it is the integer
+// fields in offset order (the slots must tile [0, N) exactly).
+type vScratch struct {
+	size  int64
+	slots map[int64]*Op
+}
 type vStruct struct{ root *Root }
 type litField struct {
 	f    *types.Var
@@ -1071,6 +1079,13 @@ func (w *walker) call(e *ast.CallExpr) val {
 				if len(e.Args) > 1 {
 					sz = w.eval(e.Args[1])
 				}
+				if w.encode && len(e.Args) == 2 && isByteSlice(info.TypeOf(e.Args[0])) {
+					if k, isK := sz.(vConst); isK && k.V != nil {
+						if n, okN := constant.Int64Val(k.V); okN && n > 0 && n <= 64 {
+							return vScratch{size: n, slots: map[int64]*Op{}}
+						}
+					}
+				}
 				return vMake{size: sz}
 			case "append":
 				if len(e.Args) == 2 && !e.Ellipsis.IsValid() {
@@ -1132,6 +1147,42 @@ func (w *walker) call(e *ast.CallExpr) val {
 	case pkgPath == "bytes" && callee.Name() == "NewBuffer":
 		ops := []*Op{}
 		return vLocalBuf{ops: &ops}
+	case pkgPath == "encoding/binary" && strings.HasPrefix(callee.Name(), "PutUint") && len(e.Args) == 2 && sig.Recv() != nil:
+		// order.PutUintK(b[o:], field) into a scratch slice
+		target := e.Args[0]
+		off := int64(0)
+		if se, isSE := target.(*ast.SliceExpr); isSE && !se.Slice3 {
+			if se.Low != nil {
+				k, isK := w.eval(se.Low).(vConst)
+				if !isK || k.V == nil {
+					return vOpaque{"PutUint at a non-constant offset"}
+				}
+				off, _ = constant.Int64Val(k.V)
+			}
+			target = se.X
+		}
+		sc, isSc := w.eval(target).(vScratch)
+		if !isSc {
+			return vOpaque{"call of " + callee.FullName() + " is not interpreted"}
+		}
+		wd := map[string]int{"PutUint16": 2, "PutUint32": 4, "PutUint64": 8}[callee.Name()]
+		if wd == 0 {
+			return vOpaque{"call of " + callee.FullName() + " is not interpreted"}
+		}
+		op := &Op{Kind: INT, Width: wd, Prim: "binary." + callee.Name(), Pos: e.Pos()}
+		if sel, isSel := e.Fun.(*ast.SelectorExpr); isSel {
+			op.Order = w.orderOf(sel.X)
+		}
+		if p, ok := w.eval(e.Args[1]).(vPath); ok {
+			op.Field, op.Convs = p.P, p.Convs
+		} else {
+			op.Kind, op.Why = OPAQUE, callee.Name()+" of an untracked value"
+		}
+		if _, dup := sc.slots[off]; dup {
+			return vOpaque{"two values written at the same offset of a scratch slice"}
+		}
+		sc.slots[off] = op
+		return vConst{}
 	case pkgPath == "encoding/binary" && callee.Name() == "Write" && len(e.Args) == 3:
 		buf, ok := w.eval(e.Args[0]).(vLocalBuf)
 		if !ok {
@@ -1510,6 +1561,25 @@ func (w *walker) writerCall(e *ast.CallExpr, callee *types.Func) val {
 		case vBytesSeq:
 			for _, o := range v.Ops {
 				w.emit(o)
+			}
+		case vScratch:
+			var offs []int64
+			for o := range v.slots {
+				offs = append(offs, o)
+			}
+			sort.Slice(offs, func(i, j int) bool { return offs[i] < offs[j] })
+			next := int64(0)
+			for _, o := range offs {
+				if o != next {
+					return vOpaque{name + " of a scratch slice whose fields do not tile it"}
+				}
+				next += int64(v.slots[o].Width)
+			}
+			if next != v.size {
+				return vOpaque{name + " of a scratch slice whose fields do not tile it"}
+			}
+			for _, o := range offs {
+				w.emit(v.slots[o])
 			}
 		case vTailBytes:
 			w.emit(&Op{Kind: TAIL, Field: v.P, Container: v.Container, Via: v.Via, Prim: name, Pos: e.Pos()})
